@@ -54,9 +54,19 @@ PNames(P) == {P[i].n : i \in {j \in 1..Len(P) : ~P[j].sym}}
 \* ------------------------------------------------------------------ declarations
 Recast(k, v) == IF v.x THEN Num(k, v.re, v.im) ELSE Inx(k, v.term)       \* same value, another numeric kind
 \* PYTHON_TYPES[ty](value): what a declared scalar / loop variable holds
+\* ... and NUMPY_TYPES[ty](value) when the value is a whole array (an array-valued expression assigned to a scalar-typed name)
+ConvArr(ty, a) ==
+  IF ~NumArr(a) THEN Unspec
+  ELSE IF Len(a.rows) = 1 /\ Len(a.rows[1]) = 1 THEN Unspec          \* a 1x1 array is accepted by the Python scalar constructors
+  ELSE CASE ty \in {"int", "float"} /\ a.ty = "complex" -> Raise("other", "complex")
+         [] ty = "int" -> (IF a.ty = "int" THEN a ELSE Unspec)
+         [] ty = "float" -> Arr("float", [r \in 1..Len(a.rows) |-> [c \in 1..Len(a.rows[r]) |-> Recast("float", a.rows[r][c])]])
+         [] ty = "complex" -> Arr("complex", [r \in 1..Len(a.rows) |-> [c \in 1..Len(a.rows[r]) |-> Recast("complex", a.rows[r][c])]])
+         [] OTHER -> Unspec
 Conv(ty, v) ==
   CASE IsBad(v) -> v
     [] v.k = "sym" -> v
+    [] v.k = "arr" -> ConvArr(ty, v)
     [] ty = "int" -> (CASE v.k = "int" -> v [] v.k = "complex" -> Raise("other", "complex") [] OTHER -> Unspec)
     [] ty = "float" -> (CASE v.k = "int" -> Recast("float", v) [] v.k = "float" -> v
                           [] v.k = "complex" -> Raise("other", "complex") [] OTHER -> Unspec)
